@@ -14,7 +14,7 @@ git apply $sd/patch.diff
 echo "== build WITH patch"; (go build ./... && echo BUILD-OK)
 echo "== demo WITH patch"; (go test -vet=off -count=1 -run 'Seed|Demo|C[0-9][0-9]' ./$pkg/ 2>&1 | tail -8)
 rm -f $wt/$pkg/zz_seed_demo_test.go
-echo "== suite WITH patch"; (go test -vet=off -count=1 ./... 2>&1 | grep -v "no test files" | tail -25)
+echo "== suite WITH patch"; (go test -vet=off -count=1 ./... 2>&1 | grep -a -v "no test files" | tail -25)
 git checkout -q -- .
 echo "== checks"
 cd /verif && bin/mutate.sh $props $sd/patch.diff 2>&1 | tail -4
